@@ -127,6 +127,14 @@ def run_check(prop, tier):
         obs = os.path.join(sc, "obs.ndjson")
         rc, out = vlib.run([binp, "-scripts", sp, "-obs", obs, "-summary", os.path.join(sc, "sum.json")], timeout=3000)
         if rc != 0:
+            crash = vlib.library_crash(out)
+            if crash:
+                # an unrecovered panic on a goroutine of the library (e.g. a pump) took the whole process down
+                path = vlib.save_replay(prop, "process-crash", dict(property=prop, key=["process-crash", crash], output_tail=out[-6000:]))
+                vlib.write_evidence(prop, tier, "model_checking",
+                                    dict(states=m["states"], transitions=m["states"], traces_validated_against_impl=0,
+                                         samples=[scripts[0]], scripts=len(scripts), crashed=crash), time.time() - t0, 1)
+                vlib.finish(prop, [("process-crash/" + crash, path)], {}, [])
             raise vlib.Infra("harness wsconn failed:\n" + out[-3000:])
         print(out.strip())
         # ---- stage V
